@@ -719,6 +719,18 @@ impl Serialize for BadKey {
         m.end()
     }
 }
+/// the string payload of a message of `size`: mostly plain, but (a function of the size alone, so that a witness replays) now
+/// and then with a character that JSON must escape - U+0000 above all: a NUL that reaches the wire inside a document is a
+/// second terminator (C02: exactly ONE NUL per message) - or a multi-byte one
+fn send_payload(size: usize) -> String {
+    let mut p = "x".repeat(size);
+    if size >= 2 && size % 5 == 3 {
+        let c = ['\u{0}', '\u{1}', '"', '\\', '\n', '\u{e9}', '\u{1f}', '\u{7f}'][(size / 5) % 8];
+        let at = size / 2;
+        p.replace_range(at..at + 1, &c.to_string());
+    }
+    p
+}
 /// ops: (kind, size)   kind 0 enqueue_call, 1 send_call, 2 send_reply, 3 send_error, 4 flush, 5 send refused, 6 enqueue... of size
 fn run_send(ops: &[(u8, usize)]) -> (Vec<String>, Vec<String>) {
     let sock = ScriptedSocket::new(&[], &[]);
@@ -728,7 +740,7 @@ fn run_send(ops: &[(u8, usize)]) -> (Vec<String>, Vec<String>) {
     let mut expected: Vec<Vec<u8>> = Vec::new();
     let frame = |v: Vec<u8>| { let mut f = v; f.push(0); f };
     for (k, size) in ops {
-        let payload = "x".repeat(*size);
+        let payload = send_payload(*size);
         match k {
             // every message here is far below the 100 MiB limit: it must be ACCEPTED (a refusal of an acceptable message is a failure)
             0 => { let c = Call::new(M::S { s: payload }); match conn.enqueue_call(&c) { Ok(_) => pending.extend(frame(serde_json::to_vec(&c).unwrap())), Err(e) => expected.push(format!("<acceptable call of {size} payload bytes refused: {e:?}>").into_bytes()) } }
